@@ -80,6 +80,23 @@ template <> struct TI<TC4> {
   static Val norm(Val v) { return EI<TC4>::norm(v); }
   static bool relocatable() { return true; }
 };
+// a trivial type whose value-initialised representation is not all-zero bits (a null pointer to data member is -1 on this ABI):
+// value-initialisation must produce T(), not zeroed bytes. val(): key 0 = null member pointer (and b == 0), key k = designates member k.
+struct PMemHost { int m1, m2, m3; };
+struct PMem {
+  int PMemHost::*p;
+  int b;
+};
+inline int pmem_key(const PMem &v) { return v.p == nullptr ? 0 : v.p == &PMemHost::m1 ? 1 : v.p == &PMemHost::m2 ? 2 : 3; }
+template <> struct TI<PMem> {
+  static const bool tracked = false;
+  static const char *name() { return "PMem"; }
+  static void make(PMem *p, int k, unsigned pay) { p->p = (k % 4) == 0 ? nullptr : (k % 4) == 1 ? &PMemHost::m1 : (k % 4) == 2 ? &PMemHost::m2 : &PMemHost::m3; p->b = static_cast<int>(pay); }
+  static PMem *construct_args(PMem *d, int k, unsigned pay) { PMem t; make(&t, k, pay); return amc::construct_at(d, t); }
+  static Val val(const PMem &v) { return Val(pmem_key(v), static_cast<unsigned>(v.b)); }
+  static Val norm(Val v) { return Val(v.key % 4, v.pay); }
+  static bool relocatable() { return true; }
+};
 template <int K> struct TI<Tracked<K> > {
   static const bool tracked = true;
   static const char *name() { return Tracked<K>::kname(); }
@@ -614,9 +631,9 @@ struct AlgoEngine : EngineBase {
     switch (algo) {
       case A_CONSTRUCT_AT: construct_cells<int>(); construct_cells<TC4>(); construct_cells<TR>(); construct_cells<NTR>(); construct_cells<NTR_TM>(); construct_cells<NTR_NCTM>(); break;
       case A_DESTROY_AT: case A_DESTROY: case A_DESTROY_N: destroy_family<int>(algo); destroy_family<TC4>(algo); destroy_family<TR>(algo); destroy_family<NTR>(algo); break;
-      case A_UCOPY: case A_UCOPY_N: { int f = algo - A_UCOPY; range_family<int>(algo, f); range_family<TC4>(algo, f); range_family<TR>(algo, f); range_family<NTR>(algo, f); range_family<NTR_TM>(algo, f); range_family<NTR_NCTM>(algo, f); hetero_family<NTR, NTR_MO>(algo, f); hetero_family<TR, NTR>(algo, f); break; }
+      case A_UCOPY: case A_UCOPY_N: { int f = algo - A_UCOPY; range_family<int>(algo, f); range_family<TC4>(algo, f); range_family<PMem>(algo, f); range_family<TR>(algo, f); range_family<NTR>(algo, f); range_family<NTR_TM>(algo, f); range_family<NTR_NCTM>(algo, f); hetero_family<NTR, NTR_MO>(algo, f); hetero_family<TR, NTR>(algo, f); break; }
       case A_UMOVE: case A_UMOVE_N: { int f = 2 + algo - A_UMOVE; range_family<int>(algo, f); range_family<TC4>(algo, f); range_family<TR>(algo, f); range_family<NTR>(algo, f); range_family<NTR_TM>(algo, f); range_family<NTR_NCTM>(algo, f); hetero_family<NTR, NTR_MO>(algo, f); hetero_family<TR, NTR>(algo, f); break; }
-      case A_UDEFAULT: case A_UDEFAULT_N: case A_UVALUE: case A_UVALUE_N: { int f = algo - A_UDEFAULT; ctor_family<int>(algo, f); ctor_family<TC4>(algo, f); ctor_family<TR>(algo, f); ctor_family<NTR>(algo, f); break; }
+      case A_UDEFAULT: case A_UDEFAULT_N: case A_UVALUE: case A_UVALUE_N: { int f = algo - A_UDEFAULT; ctor_family<int>(algo, f); ctor_family<TC4>(algo, f); ctor_family<PMem>(algo, f); ctor_family<TR>(algo, f); ctor_family<NTR>(algo, f); break; }
       case A_URELOC: case A_URELOC_N: { int f = 4 + algo - A_URELOC; range_family<int>(algo, f); range_family<TC4>(algo, f); range_family<TR>(algo, f); range_family<NTR>(algo, f); range_family<NTR_TM>(algo, f); range_family<NTR_NCTM>(algo, f); hetero_family<NTR, NTR_MO>(algo, f); hetero_family<TR, NTR>(algo, f); break; }
       case A_RELOC_AT: relocate_at_cells<int>(); relocate_at_cells<TC4>(); relocate_at_cells<TR>(); relocate_at_cells<NTR>(); relocate_at_cells<NTR_TM>(); relocate_at_cells<NTR_NCTM>(); break;
       case A_OVERLAP: overlap_cells<int>(); overlap_cells<TC4>(); overlap_cells<TR>(); break;
